@@ -20,7 +20,7 @@ YOUR TASK: produce ONE realistic change (a small bug of the kind a maintainer co
 
 Deliverables, all inside {wt}:
  1. The change itself, left applied in the worktree (uncommitted is fine). Keep it minimal (a few lines).
- 2. A demonstration: a new integration test file {wt}/tests/seeded_demo.rs (a standalone test crate using only the public API of slotted_egraphs; look at {wt}/tests/ for how languages are defined with define_language! and how the API is used) that FAILS with your change and PASSES without it. State which features it needs. Verify both directions yourself: run it with the change (must fail: wrong answer or panic), then `git stash` the src change (keep the test), run again (must pass), then `git stash pop`.
+ 2. A demonstration: a new integration test file {wt}/tests/seeded_demo.rs (a standalone test crate using only the public API of slotted_egraphs; look at {wt}/tests/ for how languages are defined with define_language! and how the API is used) that FAILS with your change and PASSES without it. State which features it needs. Verify both directions yourself: run it with the change (must fail: wrong answer or panic), then take the src change out with `git diff -- src > /tmp/<your-worktree-name>.patch && git apply -R /tmp/<your-worktree-name>.patch` (keep the test), run again (must pass), then put it back with `git apply /tmp/<your-worktree-name>.patch`. NEVER use `git stash`: the stash is shared by all worktrees of the repository and other engineers are working in sibling worktrees right now.
  3. Run the full existing suite with the change applied: `cargo test --offline --no-fail-fast 2>&1 | tail -30` (excluding your demo test if it is in tests/, e.g. run `cargo test --offline --no-fail-fast --lib --test entry`) and confirm 82 pass / same 3 fail.
  4. Write {wt}/SEEDED.md: what you changed and why it breaks the property, what it needs in order to manifest, the exact commands you ran and their outcomes.
 
